@@ -27,6 +27,8 @@ VARIANTS = [
     ("A", True, True, False),
     ("A", False, False, True),
     ("B", True, False, True),
+    ("C", "F", "F", False),  # "F": the attribute is present and explicitly False
+    ("B", "F", True, False),
 ]
 
 CLS_SRC = '''
@@ -64,9 +66,9 @@ def write_package(spec):
             if mode is not None:
                 attrs += f"    MODE_NAME = {mode!r}\n"
             if dis:
-                attrs += "    DISABLED = True\n"
+                attrs += f"    DISABLED = {dis is True}\n"
             if dflt:
-                attrs += "    DEFAULT = True\n"
+                attrs += f"    DEFAULT = {dflt is True}\n"
             if not attrs:
                 attrs = "    pass\n"
             src += CLS_SRC.format(cls=f"K{ci}", mod=f"m{mi}", attrs=attrs, boom="        raise RuntimeError('constructor failure')" if boom else "")
@@ -116,6 +118,7 @@ def discovery_model(spec, fms):
             continue
         for ci, v in enumerate(m["classes"]):
             mode, dis, dflt, boom = VARIANTS[v]
+            dis, dflt = dis is True, dflt is True
             if mode is None or dis:
                 continue
             if boom:
@@ -174,7 +177,7 @@ def run_discovery(spec, fms, res):
             expected_inits = set(healthy_ids)
             # classes whose constructor raises are attempted too
             attempted_ok = set(i for i in inits)
-            extra = attempted_ok - expected_inits - {f"m{mi}.K{ci}" for mi, m in enumerate(spec) for ci, v in enumerate(m["classes"]) if VARIANTS[v][3] and VARIANTS[v][0] is not None and not VARIANTS[v][1] and not m["fail"]}
+            extra = attempted_ok - expected_inits - {f"m{mi}.K{ci}" for mi, m in enumerate(spec) for ci, v in enumerate(m["classes"]) if VARIANTS[v][3] and VARIANTS[v][0] is not None and VARIANTS[v][1] is not True and not m["fail"]}
             if extra:
                 res.violation("instantiated-unexpected-class", f"{desc}: instantiated {sorted(extra)} (disabled, unnamed or failing-module classes)", rp)
             missing = expected_inits - attempted_ok
@@ -517,7 +520,7 @@ def main(tier, seed):
             res.merge(d)
     res.bounds.update(packages=len(fam), class_variants=len(VARIANTS), lifecycle_ops=nops, selection_pass_ops=deep, selections=[list(s) for s in SELECTIONS], run_history_depth=4 if tier == "quick" else 6)
     rule = (
-        "(A) every generated package in the family (1-2 modules [thorough: 3], 0-2 classes per module, 9 class variants over MODE_NAME / DISABLED / DEFAULT / "
+        "(A) every generated package in the family (1-2 modules [thorough: 3], 0-2 classes per module, 11 class variants over MODE_NAME / DISABLED (absent, True, explicitly False) / DEFAULT (absent, True, explicitly False) / "
         "raising constructor, modules that raise at import) x FMS attached or not, written to disk and loaded by the real AutonomousModeSelector; set-level "
         "discovery model (who is instantiated once, modes table, chooser options and preselection, raise / tolerate). (B) every history of the stated length over start / periodic (after a clock advance) / disable and, between "
         "periods, edits of the dashboard 'Auto Selector' string and of the chooser selection; the exact callback log incl. the elapsed time passed to "
